@@ -43,6 +43,9 @@ type FuncContract struct {
 	Atomic     bool
 	Unroll     map[int]int
 	Safe       map[string]bool
+	GhostVars  []SpecParam         // ghost variables: name, Go type
+	GhostCall  map[string][]Clause // callee text -> ghost assignments 'lhs = rhs' executed at each such call (after its callreq)
+	RecvAssume map[string][]Clause // channel expression text -> assumption about every value received from it (a1)
 	After      map[string][]Clause // callee text -> stepping-stone assertions proved and then assumed after the statement containing the call
 }
 
@@ -147,7 +150,7 @@ func (pc *PkgContracts) parseFile(path string) error {
 			if _, dup := pc.Funcs[key]; dup {
 				return fmt.Errorf("%s:%d: duplicate contract for %s", path, l.line, key)
 			}
-			cur = &FuncContract{Key: key, LoopInv: map[int][]Clause{}, LoopMod: map[int][]string{}, CallReq: map[string][]Clause{}, File: path, Line: l.line, Unroll: map[int]int{}, Safe: map[string]bool{}, After: map[string][]Clause{}}
+			cur = &FuncContract{Key: key, LoopInv: map[int][]Clause{}, LoopMod: map[int][]string{}, CallReq: map[string][]Clause{}, File: path, Line: l.line, Unroll: map[int]int{}, Safe: map[string]bool{}, After: map[string][]Clause{}, GhostCall: map[string][]Clause{}, RecvAssume: map[string][]Clause{}}
 			pc.Funcs[key] = cur
 			pc.Order = append(pc.Order, key)
 		case "spec":
@@ -287,7 +290,23 @@ func (pc *PkgContracts) parseFile(path string) error {
 					cur.Havoc = append(cur.Havoc, strings.TrimSpace(v))
 				}
 			case "ghost":
-				cur.Ghost = append(cur.Ghost, rest)
+				i := strings.IndexAny(rest, " \t")
+				if i < 0 {
+					return fmt.Errorf("%s:%d: ghost needs 'name type'", path, l.line)
+				}
+				cur.GhostVars = append(cur.GhostVars, SpecParam{rest[:i], strings.TrimSpace(rest[i+1:])})
+			case "ghostcall", "recvassume":
+				i := strings.Index(rest, ":")
+				if i < 0 {
+					return fmt.Errorf("%s:%d: %s needs 'target: text'", path, l.line, word)
+				}
+				tgt := strings.TrimSpace(rest[:i])
+				c := Clause{Text: strings.TrimSpace(rest[i+1:]), Line: l.line, File: path}
+				if word == "ghostcall" {
+					cur.GhostCall[tgt] = append(cur.GhostCall[tgt], c)
+				} else {
+					cur.RecvAssume[tgt] = append(cur.RecvAssume[tgt], c)
+				}
 			default:
 				return fmt.Errorf("%s:%d: unknown clause %q", path, l.line, word)
 			}
